@@ -98,7 +98,7 @@ fn run_boards<M: BoardMonitor>(cfg: &Cfg, spec: BoardRun, make: impl Fn() -> M +
         let budget = cx.budget(spec.quick, spec.thorough);
         let drv = Driver { corpus: &corpus, mix: spec.mix };
         drv.run(cx, &mut mon, budget);
-        if spec.small && cx.is_thorough() {
+        if spec.small && cx.is_thorough() && !cx.miri {
             small_boards(cx, &mut mon);
         }
         extra(cx, &mut mon);
@@ -300,7 +300,7 @@ fn run_property(cfg: &Cfg) -> Result<Outcome, String> {
                 let n = cx.budget(240_000, 6_000_000);
                 c06_defect_loop(cx, n);
                 let pairs = cx.budget(32_000, 32_000);
-                let all = cx.is_thorough();
+                let all = cx.is_thorough() && !cx.miri;
                 c06_start_constructors(cx, pairs, all);
             },
         ),
@@ -466,7 +466,7 @@ fn run_property(cfg: &Cfg) -> Result<Outcome, String> {
 
 fn replay(args: &[String]) -> i32 {
     install_panic_hook();
-    let cfg = Cfg { property: "replay".into(), tier: Tier::Quick, seed: 1, shards: 1, out: None, scale_num: 1, scale_den: 1 };
+    let cfg = Cfg { property: "replay".into(), tier: Tier::Quick, seed: 1, shards: 1, out: None, scale_num: 1, scale_den: 1, miri: false };
     let mut cx = Cx::new(&cfg, 0);
     let kind = args.first().map(|s| s.as_str()).unwrap_or("none");
     match kind {
@@ -671,6 +671,7 @@ fn main() {
         out: None,
         scale_num: 1,
         scale_den: 1,
+        miri: false,
     };
     let mut i = 2;
     while i < args.len() {
@@ -682,6 +683,9 @@ fn main() {
             "--out" => {
                 cfg.out = Some(args[i + 1].clone());
                 i += 1;
+            }
+            "--miri" => {
+                cfg.miri = true;
             }
             "--shards" => {
                 cfg.shards = args[i + 1].parse().unwrap_or(16);
@@ -698,7 +702,7 @@ fn main() {
         i += 1;
     }
     // reduced self-test of the oracle before every check
-    if let Err(e) = selftest::run(true) {
+    if let Err(e) = if cfg.miri { Ok(String::new()) } else { selftest::run(true) } {
         let out = Outcome { stats: Stats::default(), rule: String::new(), floors: vec![], exhaustive: false, exhaustive_note: String::new(), inconclusive: Some(format!("reference-model self-test failed: {}", e)) };
         write_result(&cfg, &out, started);
         std::process::exit(2);
